@@ -159,7 +159,7 @@ def _lstr(s):
 GENERATED = ['UnitTable', 'LammpsStyle']
 THEOREMS = [
     # precedence of the hand-coded tokeniser/reducer (every rendering, every value algebra)
-    'C09.parse_precedence',
+    'C09.parse_precedence', 'C09.parse_render_precedence',
     # set/get inverse
     'C09.set_get_inverse', 'C09.set_get_inverse_parse',
     # dimension homomorphism and working-unit independence
@@ -175,7 +175,8 @@ THEOREMS = [
 PARTIAL = {}
 RULE = ('expression trees over {numeric literal, unit name, *, /, ^} generated to depth 6 (exponents: integer-valued '
         'literals or small integer-valued sub-expressions, negative included), rendered by the harness with minimal '
-        'parentheses plus random redundant parentheses and random runs of the four blank characters around every token; '
+        'parentheses plus random redundant parentheses and random runs of the four blank characters around every token, and '
+        'by the model renderer (driver op rparse) with a uniform blank string; '
         'malformed stream = 1-2 character edits of valid renderings plus a fixed list; working-unit configurations = SI, '
         'the atomman default, numericalunits seeds, and named choices (every non-empty subset of the five keywords incl. the '
         'over-determined and the five-keyword one, names drawn from the generated table by dimension, every name of every '
@@ -825,6 +826,56 @@ def _corr_parse(ctx, rng, uc, cfg, n_valid, n_bad):
                          {'op': 'parse', 'cfg': cfg, 'string': s, 'impl': impl, 'model': out})
 
 
+def _prefix(t):
+    if t[0] == 'name':
+        return 'N ' + _cpn(t[1])
+    if t[0] == 'num':
+        return 'L ' + _cpn(t[1])
+    return {'mul': 'M', 'div': 'D', 'pow': 'P'}[t[0]] + ' ' + _prefix(t[1]) + ' ' + _prefix(t[2])
+
+
+def _corr_lean_render(ctx, rng, uc, cfg, n):
+    """the exact statement of `parse_render_precedence` on the real code: the MODEL renders the tree (its own `render`,
+    blank string w, level 0..2), the real uc.parse reads that string; model parse = model evalAst = real value; and the
+    harness's reader of the ordinary grammar recovers the tree from the model's rendering."""
+    t = _tab()
+    vals = {k: Fraction(float(v)) for k, v in uc.unit.items()}
+    lines, metas = [], []
+    tries = 0
+    while len(lines) < n and tries < 20 * n:
+        tries += 1
+        tree = gen_tree(rng, rng.choice([1, 2, 3, 4, 5, 6]), t.names, pleaf=0.15)
+        try:
+            v, dm, e = ev(tree, vals, None, EU)
+        except Outside:
+            continue
+        except EvalErr:
+            v, e = None, 0.0
+        w = ''.join(rng.choice(WS) for _ in range(rng.choice([0, 0, 1, 2, 3])))
+        lines.append(f'rparse {rng.choice([0, 1, 2, 2])} {_cpn(w) if w else "-"} ' + _prefix(tree))
+        metas.append((tree, v, e))
+    outs = ctx.driver.ask_many(lines)
+    for (tree, v, e), out, line in zip(metas, outs, lines):
+        parts = [x.strip() for x in out.split('|')]
+        if len(parts) != 3:
+            ctx.disagree('lean-render', f'driver reply {out[:80]!r} to {line[:80]!r}', {'op': 'lean-render', 'line': line})
+            continue
+        sstr = _uncpn(parts[0]) if parts[0] else ''
+        ctx.stats.case('parse:lean-render', (_cfg_str(cfg), sstr), nontrivial=not parts[1].startswith('err:'),
+                       sample={'cfg': _cfg_str(cfg), 'tree': tree_str(tree), 'rendered': sstr})
+        if parts[1] != parts[2]:
+            ctx.disagree('lean-render:theorem', f'model parse(render t) = {parts[1][:40]} but evalAst t = {parts[2][:40]} '
+                         f'for t = {tree_str(tree)}', {'op': 'lean-render', 'line': line})
+        if shadow_parse(sstr) != tree:
+            ctx.disagree('lean-render:grammar', f'the harness reads the model rendering {sstr!r} as '
+                         f'{shadow_parse(sstr)} instead of {tree_str(tree)}', {'op': 'lean-render', 'line': line})
+        impl = _real_parse(uc, sstr)
+        msg = _cmp_val(impl, parts[1], lambda mv, e=e: _tol(mv, e))
+        if msg:
+            ctx.disagree('parse', f'uc.parse({sstr!r}) after {_cfg_str(cfg)}: {msg}',
+                         {'op': 'parse', 'cfg': cfg, 'string': sstr, 'impl': impl, 'model': parts[1][:200]})
+
+
 def _corr_convert(ctx, rng, uc, cfg, n):
     """set_in_units / get_in_units / set_literal against the model, scalars, lists and nested arrays."""
     np = _np()
@@ -1065,6 +1116,7 @@ def correspond(ctx):
             _sync(ctx, cfg)
             _check_table(ctx, uc, cfg, 'cfg')
             _corr_parse(ctx, rng, uc, cfg, per, per // 2)
+            _corr_lean_render(ctx, rng, uc, cfg, per // 4)
             _corr_convert(ctx, rng, uc, cfg, ctx.n(120, 800))
         _corr_styles(ctx, uc)
         # uc.parse(None) / numbers pass through
@@ -1480,7 +1532,8 @@ MANIFEST = {
             'evaluates to (v, dimension d) under SI evaluates to v * m^d1 kg^d2 s^d3 C^d4 K^d5 under any base-unit '
             'scalings, hence conversions between equal-dimension expressions do not depend on the working units; after '
             'reset_units with any non-over-determined choice of <= 4 named kinds every chosen unit of that dimension is '
-            'exactly 1 (square root as a parameter); all mechanical entries of the 8 LAMMPS style tables have the '
+            'exactly 1 (square root as a parameter); set_literal("numeral unit") is the numeral times the parsed factor; '
+            'all mechanical entries of the 8 LAMMPS style tables have the '
             'dimension of their label (kernel-decided on tables regenerated from style.py and numericalunits on every '
             'run). The model is tied to the code by the table translators and a differential run of uc.parse / '
             'set_in_units / get_in_units / set_literal / reset_units / style.unit against the compiled model on '
